@@ -1032,127 +1032,116 @@ def pDate : P Int := fun w =>
   | .s _ :: _ => .error .no           -- a string that is not a date: time.Parse fails, plain error
   | _ => .error .unmodelled
 
-mutual
-  /-- search.go readSearchKey: an atom-led key, or a parenthesised list of keys for the same criteria -/
-  def pSearchKey : Nat → Crit → P Crit
-    | 0, _, _ => .error .unmodelled
-    | fuel+1, c, w =>
-      let (t, r) := span isSearchAtomChar w
-      if t ≠ [] then pSearchKeyAtom fuel c (upper t) r
-      else
-        match special 40 w with
-        | none => .error .bad
-        | some r1 =>
-          match special 41 r1 with
-          | some r2 => .ok (c, r2)
-          | none => pSearchKeys fuel c r1
-  /-- the loop of Decoder.List around readSearchKey -/
-  def pSearchKeys : Nat → Crit → P Crit
-    | 0, _, _ => .error .unmodelled
-    | fuel+1, c, w => do
-      let (c1, r) ← pSearchKey fuel c w
-      match special 41 r with
-      | some r' => pure (c1, r')
-      | none => do
-        let (_, r2) ← pSP r
-        pSearchKeys fuel c1 r2
-  /-- search.go readSearchKeyWithAtom -/
-  def pSearchKeyAtom : Nat → Crit → Str → P Crit
-    | 0, _, _, _ => .error .unmodelled
-    | fuel+1, c, key, w =>
-      if key = str "ALL" then .ok (c, w)
-      else if key = str "UID" then do
-        let (_, r) ← pSP w
-        let (s, r) ← pNumSet r
-        pure (c.withFlat fun f => { f with uidSets := f.uidSets ++ [s] }, r)
-      else if [str "ANSWERED", str "DELETED", str "DRAFT", str "FLAGGED", str "RECENT", str "SEEN"].contains key then
-        .ok (c.withFlat fun f => { f with flags := f.flags ++ [92 :: titleCase key] }, w)
-      else if [str "UNANSWERED", str "UNDELETED", str "UNDRAFT", str "UNFLAGGED", str "UNSEEN"].contains key then
-        .ok (c.withFlat fun f => { f with notFlags := f.notFlags ++ [92 :: titleCase (key.drop 2)] }, w)
-      else if key = str "NEW" then
-        .ok (c.withFlat fun f => { f with flags := f.flags ++ [str "\\Recent"], notFlags := f.notFlags ++ [str "\\Seen"] }, w)
-      else if key = str "OLD" then
-        .ok (c.withFlat fun f => { f with notFlags := f.notFlags ++ [str "\\Recent"] }, w)
-      else if key = str "KEYWORD" || key = str "UNKEYWORD" then do
-        let (_, r) ← pSP w
-        let (fl, r) ← pFlag r
-        if key = str "KEYWORD" then pure (c.withFlat fun f => { f with flags := f.flags ++ [fl] }, r)
-        else pure (c.withFlat fun f => { f with notFlags := f.notFlags ++ [fl] }, r)
-      else if addrKeys.contains key then do
-        let (_, r) ← pSP w
-        let (v, r) ← pAString r
-        pure (c.withFlat fun f => { f with header := f.header ++ [(titleCase key, v)] }, r)
-      else if key = str "HEADER" then do
-        let (_, r) ← pSP w
-        let (k, r) ← pAString r
-        let (_, r) ← pSP r
-        let (v, r) ← pAString r
-        pure (c.withFlat fun f => { f with header := f.header ++ [(k, v)] }, r)
-      else if [str "SINCE", str "BEFORE", str "ON", str "SENTSINCE", str "SENTBEFORE", str "SENTON"].contains key then do
-        let (_, r) ← pSP w
-        let (d, r) ← pDate r
-        let g : Flat → Flat :=
-          if key = str "SINCE" then fun f => { f with since := dateOnly (interSince f.since.day d) }
-          else if key = str "BEFORE" then fun f => { f with before := dateOnly (interBefore f.before.day d) }
-          else if key = str "ON" then fun f =>
-            { f with since := dateOnly (interSince f.since.day d), before := dateOnly (interBefore f.before.day (d + day1)) }
-          else if key = str "SENTSINCE" then fun f => { f with sentSince := dateOnly (interSince f.sentSince.day d) }
-          else if key = str "SENTBEFORE" then fun f => { f with sentBefore := dateOnly (interBefore f.sentBefore.day d) }
-          else fun f =>
-            { f with sentSince := dateOnly (interSince f.sentSince.day d), sentBefore := dateOnly (interBefore f.sentBefore.day (d + day1)) }
-        pure (c.withFlat g, r)
-      else if key = str "BODY" then do
-        let (_, r) ← pSP w
-        let (v, r) ← pAString r
-        pure (c.withFlat fun f => { f with body := f.body ++ [v] }, r)
-      else if key = str "TEXT" then do
-        let (_, r) ← pSP w
-        let (v, r) ← pAString r
-        pure (c.withFlat fun f => { f with text := f.text ++ [v] }, r)
-      else if key = str "LARGER" || key = str "SMALLER" then do
-        let (_, r) ← pSP w
-        let (n, r) ← pNumber lim63 r
-        if key = str "LARGER" then pure (c.withFlat fun f => { f with larger := andLarger f.larger n }, r)
-        else pure (c.withFlat fun f => { f with smaller := andSmaller f.smaller n }, r)
-      else if key = str "NOT" then do
-        let (_, r) ← pSP w
-        let (n, r) ← pSearchKey fuel Crit.empty r
-        pure (.mk c.flat (c.nots.snoc n) c.ors, r)
-      else if key = str "OR" then do
-        let (_, r) ← pSP w
-        let (a, r) ← pSearchKey fuel Crit.empty r
-        let (_, r) ← pSP r
-        let (b, r) ← pSearchKey fuel Crit.empty r
-        pure (.mk c.flat c.nots (c.ors.snoc a b), r)
-      else if key = [36] then
-        .ok (c.withFlat fun f => { f with uidSets := f.uidSets ++ [.searchRes] }, w)
-      else
-        match NumSet.parseSet (key.map Char.ofNat) with
-        | none => .error .no
-        | some s => .ok (c.withFlat fun f => { f with seqSets := f.seqSets ++ [.set s] }, w)
-end
+/-- the `case` labels of the switch in readSearchKeyWithAtom -/
+def searchKeywords : List Str :=
+  [str "ALL", str "UID", str "ANSWERED", str "DELETED", str "DRAFT", str "FLAGGED", str "RECENT", str "SEEN", str "UNANSWERED",
+   str "UNDELETED", str "UNDRAFT", str "UNFLAGGED", str "UNSEEN", str "NEW", str "OLD", str "KEYWORD", str "UNKEYWORD", str "BCC",
+   str "CC", str "FROM", str "SUBJECT", str "TO", str "HEADER", str "SINCE", str "BEFORE", str "ON", str "SENTSINCE", str "SENTBEFORE",
+   str "SENTON", str "BODY", str "TEXT", str "LARGER", str "SMALLER", str "NOT", str "OR", [36]]
+
+/-- search.go readSearchKeyWithAtom; `rec` reads a nested key (for NOT / OR).  The `default:` of the Go
+    switch (a sequence set) comes first here: the key is none of the `case` labels. -/
+def pSearchKeyAtom (rec : Crit → P Crit) (c : Crit) (key : Str) : P Crit := fun w =>
+  if !searchKeywords.contains key then
+    match NumSet.parseSet (key.map Char.ofNat) with
+    | none => .error .no
+    | some s => .ok (c.withFlat fun f => { f with seqSets := f.seqSets ++ [.set s] }, w)
+  else if key = str "ALL" then .ok (c, w)
+  else if key = str "UID" then do
+    let (_, r) ← pSP w
+    let (s, r) ← pNumSet r
+    pure (c.withFlat fun f => { f with uidSets := f.uidSets ++ [s] }, r)
+  else if [str "ANSWERED", str "DELETED", str "DRAFT", str "FLAGGED", str "RECENT", str "SEEN"].contains key then
+    .ok (c.withFlat fun f => { f with flags := f.flags ++ [92 :: titleCase key] }, w)
+  else if [str "UNANSWERED", str "UNDELETED", str "UNDRAFT", str "UNFLAGGED", str "UNSEEN"].contains key then
+    .ok (c.withFlat fun f => { f with notFlags := f.notFlags ++ [92 :: titleCase (key.drop 2)] }, w)
+  else if key = str "NEW" then
+    .ok (c.withFlat fun f => { f with flags := f.flags ++ [str "\\Recent"], notFlags := f.notFlags ++ [str "\\Seen"] }, w)
+  else if key = str "OLD" then
+    .ok (c.withFlat fun f => { f with notFlags := f.notFlags ++ [str "\\Recent"] }, w)
+  else if key = str "KEYWORD" || key = str "UNKEYWORD" then do
+    let (_, r) ← pSP w
+    let (fl, r) ← pFlag r
+    if key = str "KEYWORD" then pure (c.withFlat fun f => { f with flags := f.flags ++ [fl] }, r)
+    else pure (c.withFlat fun f => { f with notFlags := f.notFlags ++ [fl] }, r)
+  else if addrKeys.contains key then do
+    let (_, r) ← pSP w
+    let (v, r) ← pAString r
+    pure (c.withFlat fun f => { f with header := f.header ++ [(titleCase key, v)] }, r)
+  else if key = str "HEADER" then do
+    let (_, r) ← pSP w
+    let (k, r) ← pAString r
+    let (_, r) ← pSP r
+    let (v, r) ← pAString r
+    pure (c.withFlat fun f => { f with header := f.header ++ [(k, v)] }, r)
+  else if [str "SINCE", str "BEFORE", str "ON", str "SENTSINCE", str "SENTBEFORE", str "SENTON"].contains key then do
+    let (_, r) ← pSP w
+    let (d, r) ← pDate r
+    let g : Flat → Flat :=
+      if key = str "SINCE" then fun f => { f with since := dateOnly (interSince f.since.day d) }
+      else if key = str "BEFORE" then fun f => { f with before := dateOnly (interBefore f.before.day d) }
+      else if key = str "ON" then fun f =>
+        { f with since := dateOnly (interSince f.since.day d), before := dateOnly (interBefore f.before.day (d + day1)) }
+      else if key = str "SENTSINCE" then fun f => { f with sentSince := dateOnly (interSince f.sentSince.day d) }
+      else if key = str "SENTBEFORE" then fun f => { f with sentBefore := dateOnly (interBefore f.sentBefore.day d) }
+      else fun f =>
+        { f with sentSince := dateOnly (interSince f.sentSince.day d), sentBefore := dateOnly (interBefore f.sentBefore.day (d + day1)) }
+    pure (c.withFlat g, r)
+  else if key = str "BODY" then do
+    let (_, r) ← pSP w
+    let (v, r) ← pAString r
+    pure (c.withFlat fun f => { f with body := f.body ++ [v] }, r)
+  else if key = str "TEXT" then do
+    let (_, r) ← pSP w
+    let (v, r) ← pAString r
+    pure (c.withFlat fun f => { f with text := f.text ++ [v] }, r)
+  else if key = str "LARGER" || key = str "SMALLER" then do
+    let (_, r) ← pSP w
+    let (n, r) ← pNumber lim63 r
+    if key = str "LARGER" then pure (c.withFlat fun f => { f with larger := andLarger f.larger n }, r)
+    else pure (c.withFlat fun f => { f with smaller := andSmaller f.smaller n }, r)
+  else if key = str "NOT" then do
+    let (_, r) ← pSP w
+    let (n, r) ← rec Crit.empty r
+    pure (.mk c.flat (c.nots.snoc n) c.ors, r)
+  else if key = str "OR" then do
+    let (_, r) ← pSP w
+    let (a, r) ← rec Crit.empty r
+    let (_, r) ← pSP r
+    let (b, r) ← rec Crit.empty r
+    pure (.mk c.flat c.nots (c.ors.snoc a b), r)
+  else if key = [36] then
+    .ok (c.withFlat fun f => { f with uidSets := f.uidSets ++ [.searchRes] }, w)
+  else .error .unmodelled   -- unreachable: the labels are exhausted
+
+/-- search.go readSearchKey: an atom-led key, or a parenthesised list of keys for the same criteria
+    (`Decoder.ExpectList` around readSearchKey); the fuel bounds the nesting -/
+def pSearchKey : Nat → Crit → P Crit
+  | 0, _, _ => .error .unmodelled
+  | fuel+1, c, w =>
+    let (t, r) := span isSearchAtomChar w
+    if t ≠ [] then pSearchKeyAtom (pSearchKey fuel) c (upper t) r
+    else
+      match special 40 w with
+      | none => .error .bad
+      | some r1 =>
+        match special 41 r1 with
+        | some r2 => .ok (c, r2)
+        | none => listLoop (pSearchKey fuel) r1.length c r1
 
 /-- the `for` loop of handleSearch over the top-level keys -/
 def pSearchTop : Nat → Crit → Option Str → P Crit
   | 0, _, _, _ => .error .unmodelled
   | fuel+1, c, pending, w => do
     let (c1, r) ← (match pending with
-      | some a => pSearchKeyAtom (w.length + 2) c (upper a) w
+      | some a => pSearchKeyAtom (pSearchKey (w.length + 2)) c (upper a) w
       | none => pSearchKey (w.length + 2) c w)
     let (sp?, r1) := decSP r
     if sp? then pSearchTop fuel c1 none r1 else pure (c1, r1)
 
-/-- search.go handleSearch -/
-def pSearch (uid : Bool) : P Cmd := fun w => do
-  let (_, r0) ← pSP w
-  let (a0, r1) := span isSearchAtomChar r0
-  let (opts, ext, a1, r2) ← (if a0 ≠ [] && upper a0 = str "RETURN" then do
-      let (_, r) ← pSP r1
-      let (o, r) ← pList pSearchReturnOpt {} r
-      let (_, r) ← pSP r
-      let (a, r) := span isSearchAtomChar r
-      pure (o, true, a, r)
-    else Except.ok (({} : SearchOpts), false, a0, r1))
+/-- search.go handleSearch after the return options: optional CHARSET, the keys, the defaulting of ALL -/
+def pSearchRest (uid : Bool) (opts : SearchOpts) : P Cmd := fun r1 => do
+  let (a1, r2) := span isSearchAtomChar r1
   let (a2, r3) ← (if a1 ≠ [] && upper a1 = str "CHARSET" then do
       let (_, r) ← pSP r2
       let (cs, r) ← pAString r
@@ -1163,9 +1152,19 @@ def pSearch (uid : Bool) : P Cmd := fun w => do
     else Except.ok (a1, r2))
   let (c, r4) ← pSearchTop (r3.length + 1) Crit.empty (if a2 = [] then none else some a2) r3
   let (_, r5) ← pCRLF r4
-  let _ := ext
   let opts1 := if !opts.min && !opts.max && !opts.all && !opts.count then { opts with all := true } else opts
   pure (.search uid c (some opts1), r5)
+
+/-- search.go handleSearch -/
+def pSearch (uid : Bool) : P Cmd := fun w => do
+  let (_, r0) ← pSP w
+  let (a0, r1) := span isSearchAtomChar r0
+  if a0 ≠ [] && upper a0 = str "RETURN" then do
+    let (_, r) ← pSP r1
+    let (o, r) ← pList pSearchReturnOpt {} r
+    let (_, r) ← pSP r
+    pSearchRest uid o r
+  else pSearchRest uid {} r0
 
 /-- append.go handleAppend -/
 def pAppend : P Cmd := fun w => do
